@@ -2,6 +2,7 @@
 import gc
 from ..terms import tt, show, canon, term_vars, sto, unify as runify, resolve, Budget
 from ..runner import OK, DISCARD, FAIL
+from .. import history as H
 from .. import gen
 from .. import impl
 from . import common as C
@@ -259,7 +260,7 @@ class C03(C20):
                 rows = [tuple(x) for x in tt(r['rows'])]
                 r2 = dict(r, raise_at=(ending['n'] if kind == 'pyraise' else 0))
                 fn = self.make_func(yp, r2, rows, log, counter)
-                yp.register_function(r['name'], fn, **({} if r['style'] in ('inferred', 'inferred-wrapped') else {'arity': r['arity'] if r['style'] in ('explicit', 'explicit-varargs') else -1}))
+                yp.register_function(r['name'], fn, **({} if r['style'] in ('inferred', 'inferred-wrapped') else {'arity': r['arity'] if r['style'] in ('explicit', 'explicit-varargs') else H.variadic_arity(r['name'], r['arity'])}))
             name, args = impl.goal_parts(q)
             vmap = {}
             eargs = [impl.to_engine(yp, a, vmap) for a in args]
